@@ -1,6 +1,11 @@
 SPECIFICATION Spec
 CONSTANTS
   K = 4
+  Ticks = 1
+  NodeModes2 = {0}
+  EdgeModes2 = {0}
+  AttModes2 = {0}
+  PortModes2 = {0}
   NodeModes = {0, 1, 2, 3}
   EdgeModes = {0}
   AttModes = {0}
